@@ -225,6 +225,15 @@ def replay(prop_id, path, quiet=False):
     P = load_property(prop_id)
     with open(path) as stream:
         doc = json.load(stream)
+    wanted = doc.get("hashseed")
+    if wanted is not None and os.environ.get("PYTHONHASHSEED") != wanted \
+            and not os.environ.get("VERIF_REEXEC"):
+        # a layout-dependent violation (C02) is replayed in the interpreter configuration in
+        # which it was confirmed
+        env = dict(os.environ, PYTHONHASHSEED=wanted, VERIF_REEXEC="1")
+        cmd = [sys.executable, "-m", "usimdst.cli", prop_id, "--replay", path] + \
+            (["--quiet"] if quiet else [])
+        return subprocess.run(cmd, cwd=VERIF, env=env).returncode
     case = doc["case"]
     runner = getattr(P, "run_case", None)
     if not quiet and runner is None:
@@ -249,9 +258,9 @@ def replay(prop_id, path, quiet=False):
     return 0
 
 
-def confirm_fresh(prop_id, path):
+def confirm_fresh(prop_id, path, hashseed="4242"):
     """Re-run a replay file in a fresh interpreter with another hash seed."""
-    env = dict(os.environ, PYTHONHASHSEED="4242", USIM_REPO=REPO)
+    env = dict(os.environ, PYTHONHASHSEED=hashseed, USIM_REPO=REPO, VERIF_REEXEC="1")
     cmd = [sys.executable, "-m", "usimdst.cli", prop_id, "--replay", path, "--quiet"]
     try:
         proc = subprocess.run(cmd, cwd=VERIF, env=env, capture_output=True, text=True,
@@ -325,9 +334,19 @@ def drive(prop_id, tier, seed):
             new.append((index, case, violation))
     seen_rules = set()
     replays = []
+    # A property about repeatability itself (C02) may be broken in a way that depends on the
+    # memory layout of the process: such a divergence need not show for every program in every
+    # fresh interpreter.  There, further found violations and further interpreter configurations
+    # are tried; VIOLATION is still printed only for one that did reproduce in a fresh process.
+    layout = getattr(P, "LAYOUT_DEPENDENT", False)
+    unconfirmed = []
+    tried = 0
     for index, case, violation in new:
-        if violation["rule"] in seen_rules or reported >= 3:
+        if reported >= 3 or tried >= (8 if layout else 3):
             continue
+        if violation["rule"] in seen_rules and not (layout and not reported):
+            continue
+        tried += 1
         seen_rules.add(violation["rule"])
         if hasattr(P, "reduce"):
             reduced = P.reduce(case, violation)
@@ -341,6 +360,14 @@ def drive(prop_id, tier, seed):
         path = write_replay(prop_id, small, small_violation, seed,
                             {"shrink_runs": shrink_runs, "original_case": case})
         code, line = confirm_fresh(prop_id, path)
+        if code != 1 and layout:
+            for hashseed in ("0", "1", "7"):
+                code, line = confirm_fresh(prop_id, path, hashseed)
+                if code == 1:
+                    write_replay(prop_id, small, small_violation, seed,
+                                 {"shrink_runs": shrink_runs, "original_case": case,
+                                  "hashseed": hashseed})
+                    break
         if code == 1:
             print("VIOLATION property=%s replay=%s" % (prop_id, path))
             print("  rule=%s %s" % (small_violation["rule"], small_violation["msg"]))
@@ -348,9 +375,15 @@ def drive(prop_id, tier, seed):
             reported += 1
             replays.append(path)
         else:
-            print("HARNESS-ERROR nondeterministic %s: violation %s did not reproduce in a "
-                  "fresh interpreter (%s); replay kept at %s"
-                  % (prop_id, violation["rule"], line, path))
+            unconfirmed.append("HARNESS-ERROR nondeterministic %s: violation %s did not reproduce "
+                               "in a fresh interpreter (%s); replay kept at %s"
+                               % (prop_id, violation["rule"], line, path))
+    for line in unconfirmed:
+        if layout and reported:
+            print("NOTE: a further divergence did not reproduce in a fresh interpreter (layout-"
+                  "dependent): " + line.split("replay kept at ")[-1])
+        else:
+            print(line)
             if exit_code == 0:
                 exit_code = 2
     # targeted probes for known findings: each listed finding is re-demonstrated
